@@ -28,7 +28,7 @@ func GetTasksToAllocate(
 	podGroupInfo *PodGroupInfo, subGroupOrderFn common_info.LessFn, taskOrderFn common_info.LessFn,
 	isRealAllocation bool,
 ) []*pod_info.PodInfo {
-	if podGroupInfo.tasksToAllocate != nil {
+	if podGroupInfo.tasksToAllocate != nil && podGroupInfo.tasksToAllocateIsReal == isRealAllocation {
 		return podGroupInfo.tasksToAllocate
 	}
 
@@ -50,6 +50,8 @@ func GetTasksToAllocate(
 	}
 
 	podGroupInfo.tasksToAllocate = tasksToAllocate
+	podGroupInfo.tasksToAllocateIsReal = isRealAllocation
+	podGroupInfo.tasksToAllocateInitResource = nil
 	return tasksToAllocate
 }
 
@@ -92,12 +94,13 @@ func GetTasksToAllocateInitResource(
 	if podGroupInfo == nil {
 		return resource_info.EmptyResource()
 	}
+	tasksToAllocate := GetTasksToAllocate(podGroupInfo, subGroupOrderFn, taskOrderFn, isRealAllocation)
 	if podGroupInfo.tasksToAllocateInitResource != nil {
 		return podGroupInfo.tasksToAllocateInitResource
 	}
 
 	tasksTotalRequestedResource := resource_info.EmptyResource()
-	for _, task := range GetTasksToAllocate(podGroupInfo, subGroupOrderFn, taskOrderFn, isRealAllocation) {
+	for _, task := range tasksToAllocate {
 		if task.ShouldAllocate(isRealAllocation) {
 			tasksTotalRequestedResource.AddResourceRequirements(task.ResReq)
 			if task.IsMemoryRequest() && minNodeGPUMemory > 0 {
